@@ -3,8 +3,7 @@ import CrabProofs.Lemmas.FunctorProductLat
 
 /-!
 Lattice operations of the model of `flat_boolean_numerical_domain`: `|`, `|=`, `||`, `<=`,
-`is_bottom`, `is_top`, `make_top`, `make_bottom`, and `&`, `&=`, `&&` under the side condition
-`FBN.sameUnch` (without it they are unsound: see `Props/C03FlatBool.lean`).
+`is_bottom`, `is_top`, `make_top`, `make_bottom`, and `&`, `&=`, `&&` (as fixed by repo commit ef2ddd6).
 -/
 set_option linter.unusedSectionVars false
 set_option linter.unusedSimpArgs false
@@ -139,38 +138,32 @@ theorem mem_iff_of_sameUnch {a b : FBN N} (h : sameUnch a b = true) (v : V) :
   simp only [Bool.and_eq_true] at h
   exact ⟨DSet.mem_of_leq h.2 v, DSet.mem_of_leq h.1 v⟩
 
-theorem inv_meet {a b : FBN N} {s : CSt V} (ha : Inv a s) (hb : Inv b s) (hs : sameUnch a b = true)
-    (p : Prod2 (FB V) N.toLDom) :
-    Inv (⟨p, a.lin.meet b.lin, a.bools.meet b.bools, a.unch.meet b.unch⟩ : FBN N) s := by
+/-- the auxiliary components of `a & b` (after ef2ddd6: united maps, intersected marks) describe
+    every state of both operands: a usable constraint is usable in the operand it comes from -/
+theorem inv_meet {a b : FBN N} {s : CSt V} (ha : Inv a s) (hb : Inv b s) (p : Prod2 (FB V) N.toLDom) :
+    Inv (⟨p, a.lin.meet b.lin, a.bools.meet b.bools, a.unch.join b.unch⟩ : FBN N) s := by
   obtain ⟨hlb, hbb, hub, hL, hB⟩ := ha
   obtain ⟨hlb', hbb', hub', hL', hB'⟩ := hb
   refine ⟨by simp [SEnv.isBot_meet, hlb, hlb'], by simp [SEnv.isBot_meet, hbb, hbb'],
-    by simp [DSet.isBot_meet, hub, hub'], ?_, ?_⟩
+    by simp [DSet.isBot_join, hub], ?_, ?_⟩
   · intro k c hc hu
     simp only [SEnv.look_meet, DSet.mem_meet] at hc
     rw [unchanged_iff] at hu
-    have hua : unchanged a.unch c = true := by
-      rw [unchanged_iff]; intro v hv
-      rcases (DSet.mem_meet _ _ v).1 (hu v hv) with h | h
-      · exact h
-      · exact (mem_iff_of_sameUnch hs v).2 h
-    have hub2 : unchanged b.unch c = true := by
-      rw [unchanged_iff] at hua ⊢
-      exact fun v hv => (mem_iff_of_sameUnch hs v).1 (hua v hv)
     rcases hc with hc | hc
-    · exact hL k c hc hua
-    · exact hL' k c hc hub2
+    · exact hL k c hc ((unchanged_iff _ _).2 (fun v hv => ((DSet.mem_join _ _ v).1 (hu v hv)).1))
+    · exact hL' k c hc ((unchanged_iff _ _).2 (fun v hv => ((DSet.mem_join _ _ v).1 (hu v hv)).2))
   · intro k k' hk
     simp only [SEnv.look_meet, DSet.mem_meet] at hk
     rcases hk with hk | hk
     · exact hB k k' hk
     · exact hB' k k' hk
 
-theorem meet_sound_of_sameUnch {a b : FBN N} {s : CSt V} (hs : sameUnch a b = true) (ha : γ a s)
-    (hb : γ b s) : γ (meet a b) s ∧ γ (meetEq a b) s ∧ γ (narrow a b) s :=
-  ⟨⟨Prod2.meet_sound ha.1 hb.1, inv_meet ha.2 hb.2 hs _⟩,
-   ⟨Prod2.meetEq_sound ha.1 hb.1, inv_meet ha.2 hb.2 hs _⟩,
-   ⟨Prod2.narrow_sound ha.1 hb.1, inv_meet ha.2 hb.2 hs _⟩⟩
+theorem meet_sound {a b : FBN N} {s : CSt V} (ha : γ a s) (hb : γ b s) : γ (meet a b) s :=
+  ⟨Prod2.meet_sound ha.1 hb.1, inv_meet ha.2 hb.2 _⟩
+theorem meetEq_sound {a b : FBN N} {s : CSt V} (ha : γ a s) (hb : γ b s) : γ (meetEq a b) s :=
+  ⟨Prod2.meetEq_sound ha.1 hb.1, inv_meet ha.2 hb.2 _⟩
+theorem narrow_sound {a b : FBN N} {s : CSt V} (ha : γ a s) (hb : γ b s) : γ (narrow a b) s :=
+  ⟨Prod2.narrow_sound ha.1 hb.1, inv_meet ha.2 hb.2 _⟩
 
 end FBN
 
